@@ -14,6 +14,7 @@ import (
 	"math"
 	"math/rand"
 	"os"
+	"strings"
 	"time"
 
 	kafka "github.com/segmentio/kafka-go"
@@ -189,6 +190,39 @@ func chain(a, b, c *inst, delta int32) (line string, slow bool) {
 	}
 	go func() { conn.Close(); br.Stop() }()
 	return fmt.Sprintf("c11x %s %d %s %s %s\t%s %s %s", gen.Hex([]byte(topic)), delta, a, b, c, res[0], res[1], res[2]), time.Since(t0) > time.Second
+}
+
+// sequenceN: n operations one after the other on one Conn (a Reader's or a group member's life: fetch, heartbeat,
+// commit, fetch, …), every response scripted.
+//
+//	c11n <topic hex> <n> <A1> <body1> … <An> <bodyn>\t<res1> … <resn>
+func sequenceN(xs []*inst) (line string, slow bool) {
+	sel := map[int16]int16{}
+	for _, x := range xs {
+		sel[x.op.Key] = x.v
+	}
+	t0 := time.Now()
+	conn, br := connfake.Start(topic, connfake.VersionTable(sel))
+	for _, x := range xs {
+		br.Push(x.op.Key, connfake.Resp{Body: x.body, Cut: -1})
+	}
+	res := make([]string, len(xs))
+	hung := false
+	for i, x := range xs {
+		if hung {
+			res[i] = "hang"
+			continue
+		}
+		res[i], _ = guarded(conn, x)
+		hung = res[i] == "hang"
+	}
+	go func() { conn.Close(); br.Stop() }()
+	var sb strings.Builder
+	fmt.Fprintf(&sb, "c11n %s %d", gen.Hex([]byte(topic)), len(xs))
+	for _, x := range xs {
+		fmt.Fprintf(&sb, " %s", x)
+	}
+	return sb.String() + "\t" + strings.Join(res, " "), time.Since(t0) > time.Second
 }
 
 // badSize: A's response carries the size prefix `size` instead of len(body)+4, B follows on the same Conn.
@@ -472,6 +506,55 @@ func main() {
 			a.op.Build(v, w, r, a.sh)
 			a.body = w.B
 			emit(a, follower(a))
+		}
+	}
+	// longer runs on one Conn: 4–7 operations, fetches with records among them, broker-reported errors anywhere; in
+	// half of the runs one response is a framing error (a byte missing / one too many): everything before it as
+	// usual, it and everything after it fail.
+	nseq := 12
+	if thorough {
+		nseq = 120
+	}
+	for i := 0; i < nseq && nslow < 5; i++ {
+		n := 4 + r.Intn(4)
+		var xs []*inst
+		for len(xs) < n {
+			op := connfake.OpByName(followers[r.Intn(len(followers))])
+			if op.Name == "apiVersions" {
+				continue
+			}
+			v := op.Versions[r.Intn(len(op.Versions))]
+			same := true
+			for _, y := range xs { // one version per api key on a Conn
+				if y.op.Key == op.Key && y.v != v {
+					same = false
+				}
+			}
+			if !same {
+				continue
+			}
+			var errs []int16
+			if r.Intn(3) == 0 {
+				errs = []int16{codes[r.Intn(len(codes))]}
+			}
+			x, _ := build(r, op, v, errs, op.Name == "fetch" && len(errs) == 0 && r.Intn(2) == 0)
+			xs = append(xs, x)
+		}
+		if r.Intn(2) == 0 {
+			j := r.Intn(n)
+			if xs[j].op.Name != "fetch" {
+				if r.Intn(2) == 0 && len(xs[j].body) > 1 {
+					xs[j].body = xs[j].body[:len(xs[j].body)-1]
+				} else {
+					xs[j].body = append(append([]byte{}, xs[j].body...), 0)
+				}
+			}
+		}
+		l, slow := sequenceN(xs)
+		fmt.Fprintln(out, l)
+		ncases++
+		if slow {
+			nslow++
 		}
 	}
 	// two requests in flight: when A's frame turns out to be a framing error and the Conn is closed, B — already
